@@ -467,7 +467,7 @@ func (fc *funcContext) ResolveGoto(from, to *gotoLabelDesc, index int) {
 func (fc *funcContext) FindLabel(block *codeBlock, gotoLabel *gotoLabelDesc, i int) bool {
 	target := block.GetLabel(gotoLabel.Name)
 	if target != nil {
-		if gotoLabel.NumActiveLocalVars > target.NumActiveLocalVars && block.RefUpvalue {
+		if gotoLabel.NumActiveLocalVars > target.NumActiveLocalVars {
 			fc.Code.SetA(gotoLabel.Pc-1, target.NumActiveLocalVars)
 		}
 		fc.ResolveGoto(gotoLabel, target, i)
@@ -484,9 +484,7 @@ func (fc *funcContext) ResolveCurrentBlockGotosWithParentBlock() {
 			continue
 		}
 		if gotoLabel.NumActiveLocalVars > blockActiveLocalVars {
-			if fc.Block.RefUpvalue {
-				fc.Code.SetA(gotoLabel.Pc-1, blockActiveLocalVars)
-			}
+			fc.Code.SetA(gotoLabel.Pc-1, blockActiveLocalVars)
 			gotoLabel.SetNumActiveLocalVars(blockActiveLocalVars)
 		}
 		fc.FindLabel(fc.Block.Parent, gotoLabel, i)
@@ -1021,9 +1019,7 @@ func compileRepeatStmt(context *funcContext, stmt *ast.RepeatStmt) { // {{{
 func compileBreakStmt(context *funcContext, stmt *ast.BreakStmt) { // {{{
 	for block := context.Block; block != nil; block = block.Parent {
 		if label := block.BreakLabel; label != labelNoJump {
-			if block.RefUpvalue {
-				context.Code.AddABC(OP_CLOSE, block.Parent.LocalVars.LastIndex(), 0, 0, sline(stmt))
-			}
+			context.Code.AddABC(OP_CLOSE, block.Parent.LocalVars.LastIndex(), 0, 0, sline(stmt))
 			context.Code.AddASbx(OP_JMP, 0, label, sline(stmt))
 			return
 		}
@@ -1132,7 +1128,7 @@ func compileLabelStmt(context *funcContext, stmt *ast.LabelStmt, isLastStmt bool
 } // }}}
 
 func compileGotoStmt(context *funcContext, stmt *ast.GotoStmt) { // {{{
-	context.Code.AddABC(OP_CLOSE, 0, 0, 0, sline(stmt))
+	context.Code.AddABC(OP_CLOSE, context.RegTop(), 0, 0, sline(stmt))
 	context.Code.AddASbx(OP_JMP, 0, labelNoJump, sline(stmt))
 	label := newLabelDesc(-1, stmt.Label, context.Code.LastPC(), sline(stmt), context.BlockLocalVarsCount())
 	context.AddUnresolvedGoto(label)
